@@ -239,7 +239,12 @@ def install(rec, BB, ES, SH, GT, gpyreg):
                     elif rows[0] >= 0:
                         want = float(fl.S[rows[0]].item()) ** 2
                         s2_ok = bool(np.isclose(s2[-1], want, rtol=1e-9, atol=0.0))
-                rec.emit("GPAdd", site=rec.site(), grew=grew, last_is_new=last_is_new,
+                n_same = 0
+                if last_eval is not None:
+                    for ev in rec.events:
+                        if ev["ev"] == "Eval" and ev["rec"] and ev["outcome"] == "ok" and np.array_equal(ev["u"], last_eval["u"]):
+                            n_same += 1
+                rec.emit("GPAdd", site=rec.site(), grew=grew, last_is_new=last_is_new, merged=bool(specified() and n_same >= 2),
                          logged=bool(rows[0] >= 0), valmis=bool(rows[0] <= -2),
                          is_newest=is_newest, s2_ok=s2_ok, ntrain=int(X.shape[0]))
             except Exception as e:
@@ -278,7 +283,9 @@ def install(rec, BB, ES, SH, GT, gpyreg):
                               zmin=float(np.min(z)) if z.size and np.all(np.isfinite(z)) else None,
                               argmin=int(np.argmin(z)) if z.size else -1)
                 if rec.es_ctx is not None and where == "es":
-                    rec.es_ctx["cands"].append((_c(xi), z.copy()))
+                    nrow = int(np.atleast_2d(xi).shape[0]) if np.size(xi) else 0
+                    # an empty candidate array still yields one (meaningless) value
+                    rec.es_ctx["cands"].append((_c(xi).reshape(nrow, -1) if nrow else np.zeros((0, nvars)), z[:nrow].copy()))
                 elif where == "bads":
                     ev["xi"] = _c(xi)
                     ev["z"] = z.copy()
@@ -326,6 +333,11 @@ def install(rec, BB, ES, SH, GT, gpyreg):
                         hit = bool(np.any(np.all(allu == ru, axis=1) & (allz == rz)))
                         kw["ret_in_generated"] = hit
                         kw["ret_is_min"] = bool(rz <= np.min(allz))
+                        if not np.all(np.isfinite(allz)):
+                            # non-finite acquisition values (degenerate GP): no order to check
+                            kw["ret_is_min"] = True
+                            kw["ret_in_generated"] = True
+                            kw["nonfinite_acq"] = True
                     rec.emit("ESReturn", **kw)
                 except Exception as e:
                     rec.emit("ObserverError", what="es", err=repr(e), tb=traceback.format_exc()[-600:])
